@@ -20,6 +20,10 @@ def prop(pid, level="proof", **kw):
     PROPS[pid] = kw
 
 
+ORDER_TIER = "floats: order tier - IEEE comparisons exact (NaN, +-inf); + - * / on finite values are real arithmetic"
+MODEL_NOTE = ("modular: callers are checked against callee contracts; dynamically dispatched calls use the abstract contract and every "
+              "shipped override is separately proved to refine it; loops by invariants (no unrolling, no bound)")
+
 prop("C16",
      level_text="every wrapper method (evaluate, worse_than, bounds, maximize of FunctionProblem, ProblemWrapper and the four decorators, "
                 "get_function_problem) is proved, for all inputs and all heaps, to refine the abstract Problem contract assuming only that "
@@ -27,10 +31,68 @@ prop("C16",
                 "postconditions of the real method bodies",
      level_note="trusted: the objective is a deterministic total function; closed world of Problem classes; chain axioms of the ghost "
                 "functions in_chain/depth/inner; use_cache=False; order-tier floats",
-     assumptions=["machine integers/floats: order tier (IEEE comparisons exact; + - * / on finite values are real arithmetic)"],
-     undecided_subclauses=[],
-     explanation="")
+     assumptions=[ORDER_TIER], undecided_subclauses=[])
 
+prop("C07",
+     level_text="the structure invariant (levels, root, per-deme level/index/id/class/start, parent<->child symmetry through ghost indices) is "
+                "proved to be established by DemeTree.__init__ and preserved by _do_sprout (nested loop invariants), run_sprout, run_metaepoch, "
+                "run_step and run; seed identity (the seed of a new deme is a candidate of its parent) is a postcondition of _do_sprout; "
+                "child ids come from _next_child_id (mk_id over the level size, hence unique per level; id depth = level)",
+     level_note="deme constructors enter through the abstract constructor contract (ext.$DemeCtor): the concrete __init__ bodies of the seven "
+                "deme classes are numeric (sampling) and are assumed to refine it; f-string ids modelled as a free term algebra; "
+                "user class table keys disjoint from the built-in table; " + MODEL_NOTE,
+     assumptions=["id strings are injective in (parent id, index) - free-algebra model of str()/f-strings"],
+     undecided_subclauses=["'population-based children contain the seed in their initial population' is a clause of the concrete deme "
+                           "constructors (sampling code): assumed through the abstract constructor contract, not proved"])
+
+prop("C18",
+     level_text="run_sprout: for every deme that was an active non-leaf when the round began, hibernating == (no sprout taken from it), demes "
+                "created by the round are awake and active, no flag is written with the option off; tree.run_metaepoch: a hibernating deme is "
+                "not stepped - its history length, activity flag and evaluation counter are unchanged (frame + loop invariant)",
+     level_note="the seeds dictionary comes from the sprout mechanism's interface contract; " + MODEL_NOTE,
+     assumptions=[],
+     undecided_subclauses=["'a metaepoch never passes without an objective evaluation': holds only with probability 1 for SEA/DE/SHADE levels "
+                           "(only changed rows are evaluated) and is false in the recorded finding D11 - not decided by contracts"])
+
+prop("C05",
+     level_text="run(): loop invariant metaepoch_count - entry == number of run_step calls, exit only on a true verdict with no evaluation "
+                "since (ghost clock), exactly n for MetaepochLimit(n), zero for DontRun; run_step: +1, and no sprouting when the verdict "
+                "observed after the metaepoch is true; each population deme consults the condition after every generation and returns at "
+                "once on a true verdict (call-site obligation: no engine iteration is started after a true verdict); verdict clauses of "
+                "the shipped stop conditions are proved against the spec views of the tree",
+     level_note="user-defined stop conditions are assumed to satisfy the abstract contract (pure verdict); the stability lemma 'a true verdict "
+                "stays true under Step' is argued in DESIGN.md and not mechanised; " + MODEL_NOTE,
+     assumptions=[], undecided_subclauses=["stability of verdicts under further evaluation (per shipped condition) is a paper argument",
+                                           "NoActiveNonrootDemes / FitnessEvalLimitReached verdict clauses are not under contract"])
+
+prop("C06",
+     level_text="abstract AbstractDeme.run_metaepoch contract (one more history entry, recorded entries kept, active == not(gsc or lsc or "
+                "engine stop), frame = own fields/own history/own wrapper) refined by the EA/DE/SHADE demes; DemeTree.run_metaepoch: every "
+                "deme that was active and not hibernating advances by exactly one entry, every other deme is untouched, stopping is final; "
+                "run_step: freshly sprouted demes have history length 1 (they run from the next metaepoch)",
+     level_note="CMA/LHS/Sobol/local demes: see coverage.functions_under_contract for which are proved; " + MODEL_NOTE,
+     assumptions=[], undecided_subclauses=[])
+
+prop("C11",
+     level_text="call-site obligation in every population deme: the parents handed to the engine are the previous generation (the last list "
+                "appended in this metaepoch, or the current population for the first); engine contract: every returned individual equals a "
+                "parent (genome and fitness) or was evaluated after the call began",
+     level_note="the engine contracts (BaseSEA.run, DE.run, SHADE.run) are assumed at this level and verified with the population/operator "
+                "contracts; " + MODEL_NOTE,
+     assumptions=[], undecided_subclauses=[])
+
+prop("C03",
+     level_text="wrapper counters (C16 laws), DemeTree.n_evaluations == sum over all demes of the deme's own wrapper count, eval-limit verdicts "
+                "over that sum, per-deme count >= ghost clock increments through every engine iteration (clock = objective invocations)",
+     level_note="exact equality 'count == invocations' additionally needs 'no cutoff wrapper has refused', carried as Transparent(); " + MODEL_NOTE,
+     assumptions=[ORDER_TIER], undecided_subclauses=["minimize().nfev: see hms contracts"])
+
+prop("C04",
+     level_text="Individual ordering against the direction-aware spec order; AbstractDeme.best_individual / best_current_individual and "
+                "DemeTree.best_individual: result is a member and no member is better (heap-function contracts, proved from the max() model)",
+     level_note="'never gets worse' follows from 'histories only grow' (frames) on paper; budget-prefix clause undecided; " + MODEL_NOTE,
+     assumptions=[ORDER_TIER, "individuals compared are evaluated (fitness not NaN) and share one direction"],
+     undecided_subclauses=["for a fixed seed a larger maxfun replays the same evaluations as a prefix (two-run hyperproperty)"])
 
 def run_side_checks(pid, tier, seed):
     return []
